@@ -69,6 +69,13 @@ var propInfo = map[string]struct {
 			"an `in (list)` node closes at the list's parenthesis and is given level 6: what follows it continues as after a parenthesised expression (a list is not an operand of any documented operator)",
 			"termination / stack depth of the mutually recursive parser functions is not proved here",
 		}},
+	"C17": {"proof",
+		"Error rendering and error positions, proved on the real code. (1) outputQueryAndErrPos, for every query text, offset and padding: the result is <window>\\n<blanks>^--\\n; the window shows a piece of the trimmed query that contains the offset (cut marks `... ` / ` ...` at the ends), and for an offset inside the trimmed text the caret column points at exactly the byte query[offset] of the ORIGINAL (untrimmed) query; -1 puts the caret just past the end; no slice goes out of range for any offset (the window width and cut positions are the code's choice and are not pinned, so changing them is not an alarm). (2) SyntaxError/ExecuteError.Error() after BindQuery start with exactly that rendering for the carried offset and padding; NewSyntaxError / NewExecuteError carry the position they are given. (3) Every SyntaxError produced by the expression parser (parseExpr ... parseOperand, expect) carries -1, 0 or the Pos of one of the parser's tokens.",
+		[]string{
+			"NOT yet covered: positions of errors raised by the statement-level parser functions (parseSelect, parsePut, ...), by the checker (AST node positions are token positions: needs a tree invariant) and at execution time; that a token's Pos lies inside the query is the lexer's contract (C16, not yet claimed)",
+			"T-STD: strings.TrimSpace removes lead(s) leading and trail(s) trailing bytes; strings.TrimLeftFunc(s, unicode.IsSpace) removes the same leading bytes; fmt.Sprintf of a constant format is a function of its arguments",
+			"witnesses of the rendering statement (window text, cut flags, caret column) are read from the function's final local variables; a rename of those locals needs the contract file to follow",
+		}},
 	"C07": {"proof",
 		"Order plan, proved on the real code: the comparators return the sign of the documented order (integers and floats numerically, text byte-wise, false before true, negated for DESC; values of different kinds compare as unordered instead of panicking); Less is exactly the lexicographic order over the ORDER BY keys (first differing key decides, ties are not less - stated with a ghost index); the heap adapter's Len/Swap/Push/Pop/Less are exact; Init resolves every order field to the position of the select field of that name; prepare/prepareBatch push every row of the child exactly once (ghost heap size = total - pos, child drained), Next/Batch pop one row per returned row and stop exactly when all have been returned; buildFinalOrderPlan elides only a lone `order by key asc` on a non-aggregate query.",
 		[]string{
